@@ -54,6 +54,20 @@ func flush(out *res.Result) {
 	}
 }
 
+// flipCase swaps the case of the ASCII letters of s.
+func flipCase(s string) string {
+	b := []byte(s)
+	for i, c := range b {
+		switch {
+		case c >= 'a' && c <= 'z':
+			b[i] = c - 32
+		case c >= 'A' && c <= 'Z':
+			b[i] = c + 32
+		}
+	}
+	return string(b)
+}
+
 // guard runs f and converts a panic into its message.
 func guard(f func() string) (s string, pan string) {
 	defer func() {
@@ -412,7 +426,11 @@ func runAuthor(m *mp.Model, r *rng.R, n int, out *res.Result) error {
 		k := cr.Range(1, 4)
 		names := []string{}
 		for j := 0; j < k; j++ {
-			nm := fmt.Sprintf("a%d", j)
+			// author names are case-sensitive custom identifiers: mixed case, and pairs differing by case only
+			nm := fmt.Sprintf(rng.Pick(cr, "a%d", "a%d", "A%d", "aB%d", "Ab%d", "ZZ%d"), j)
+			if j > 0 && cr.P(1, 8) {
+				nm = flipCase(names[cr.Intn(j)])
+			}
 			if cr.P(1, 12) {
 				nm = rng.Pick(cr, "lower-roman", "upper-alpha", "decimal", "disc", "cjk-decimal", "numeric", "cyclic")
 			}
@@ -462,6 +480,17 @@ func runAuthor(m *mp.Model, r *rng.R, n int, out *res.Result) error {
 		targets := append([]string{}, names...)
 		if cr.P(1, 3) {
 			targets = append(targets, uaRefs[cr.Intn(len(uaRefs))], "nosuch")
+		}
+		if cr.P(1, 3) { // a name that differs from a defined one by case only is another (usually undefined) style
+			targets = append(targets, flipCase(names[cr.Intn(len(names))]))
+		}
+		for _, g := range gs {
+			if (g.system == "cyclic" || g.system == "fixed") && g.pad != nil && g.pad.w >= 2 {
+				out.Hit("author:pad-on-signless-system") // negative values must be padded without room for a sign
+			}
+			if g.name != strings.ToLower(g.name) {
+				out.Hit("author:mixed-case-name")
+			}
 		}
 		// huge values only where the output stays short (symbolic / additive repeat a symbol value/weight times)
 		hugeOK := true
